@@ -894,6 +894,15 @@ func NewOpLib() *OpLib {
 				{Asset: "ATOM", Amount: Dec(v.amt), Depth: Dec(v.depth)}, {Asset: "USDC", Amount: Dec(v.amt), Depth: Dec(v.depth)}}}}})
 		})
 	}
+	for _, f := range []struct {
+		n string
+		a int64
+	}{{"60pct", 6e8}, {"90pct", 9e8}, {"995permille", 995e6}} {
+		f := f
+		l.Add("unstake_elys_lp1_"+f.n, "unstake", 0, func(w *World, p *BlockPlan) {
+			p.Txs = one("lp1", &ctypes.MsgUnstake{Creator: w.A("lp1").Addr.String(), Asset: "uelys", Amount: I(f.a), ValidatorAddress: w.ValAddr.String()})
+		})
+	}
 	l.Add("unstake_elys_lp1_all", "unstake", 0, func(w *World, p *BlockPlan) {
 		p.Txs = one("lp1", &ctypes.MsgUnstake{Creator: w.A("lp1").Addr.String(), Asset: "uelys", Amount: I(1e9), ValidatorAddress: w.ValAddr.String()})
 	})
